@@ -196,8 +196,9 @@ def d4(mod, run, w):
                     new = p.writes.get(key)
                     if old is None or new is None: bad = "byte is not read-modify-written"
                     else:
+                        known = {c[1]: c[2] for c in p.cases if c[0] == "bit"}          # the path branched on the flag: its value is known here
                         for b in range(8):
-                            exp = old.bits[b] if b != k else (("val", 0) if isset else e2.b_not(old.bits[k]))
+                            exp = old.bits[b] if b != k else (known.get(("val", 0), ("val", 0)) if isset else e2.b_not(old.bits[k]))
                             if new.bits[b] != exp:
                                 bad = "bit %d of the byte becomes %s, expected %s%s" % (b, e2.fmt_bit(new.bits[b]), e2.fmt_bit(exp), " (setting a bit to false cannot clear it)" if isset and b == k else ""); break
                         if bad is None and not isset:
